@@ -435,6 +435,36 @@ def extract_restart(src):
     return dict(prog=prog, call_arg=inner[0])
 
 
+def extract_cvstep(repo):
+    """cvode.cpp CVStep: which vector is tested and stored as cvode_last_good_y at the top of every attempt"""
+    src = strip_comments((repo / "src/phreeqcpp/cvode.cpp").read_text())
+    src = re.sub(r"#ifdef DEBUG_CVODE.*?#endif", "", src, flags=re.S)
+    m = re.search(r"\nCVStep\s*\(CVodeMem cv_mem\)\s*\{", src)
+    if not m:
+        raise Shape("gen_rk: CVStep not found in cvode.cpp")
+    body = src[m.end():m.end() + 6000]
+    nb = norm(body)
+    mm = re.search(r"loop\{boolpredict_fail=false;CVMEMcvode_test=TRUE;f\(N,tn,(zn\[0\]|y),ftemp,f_data\);CVMEMcvode_test=FALSE;"
+                   r"if\(CVMEMcvode_error==TRUE\)\{predict_fail=true;\}else\{CVMEMcvode_prev_good_time=CVMEMcvode_last_good_time;"
+                   r"N_VScale\(1\.0,CVMEMcvode_last_good_y,CVMEMcvode_prev_good_y\);CVMEMcvode_last_good_time=tn;"
+                   r"N_VScale\(1\.0,(zn\[0\]|y),CVMEMcvode_last_good_y\);\}", nb)
+    if not mm:
+        raise Shape("gen_rk: the last-good-state hook at the top of the CVStep attempt loop is not recognised")
+    if "CVPredict(cv_mem);" not in nb[mm.end():mm.end() + 200]:
+        raise Shape("gen_rk: CVPredict does not follow the last-good-state hook")
+    code = {"zn[0]": 0, "y": 1}
+    return {"test": code[mm.group(1)], "save": code[mm.group(2)]}
+
+
+def extract_miter(src):
+    body, _ = function_body(src, "run_reactions")
+    nb = norm(body)
+    m = re.search(r"if\(\+\+m_iter(>=|>)kinetics_ptr->Get_bad_step_max\(\)\)", nb)
+    if not m:
+        raise Shape("gen_rk: `if (++m_iter >= bad_step_max)` not recognised in the CVODE restart loop")
+    return m.group(1)
+
+
 # ---------------------------------------------------------------------------------------------------------------
 def q(x):
     x = Fraction(x)
@@ -486,6 +516,11 @@ def render(tab, ctl, rst, repo_rel):
     L.append("]")
     L.append(f"/-- variable passed as end time to the re-started CVode call -/")
     L.append(f"def restartCallArg : Nat := {VARS.index(rst['call_arg'])}")
+    L.append("/-- `if (++m_iter >= bad_step_max)` (true) or `>` (false): when the restart loop gives up -/")
+    L.append(f"def restartStopsAtGe : Bool := {'true' if rst['miter'] == '>=' else 'false'}")
+    L.append("/-- cvode.cpp CVStep, top of every attempt: vector handed to the f test / stored as cvode_last_good_y (0 = zn[0], 1 = y) -/")
+    L.append(f"def hookTestVec : Nat := {rst['hook']['test']}")
+    L.append(f"def hookSaveVec : Nat := {rst['hook']['save']}")
     L.append("")
     L.append("end PhreeqcVerif.Gen.RKTableau")
     return "\n".join(L) + "\n"
@@ -511,6 +546,8 @@ def extract(repo=None):
     ctl = extract_control(body)
     extract_clamp(src)
     rst = extract_restart(src)
+    rst["miter"] = extract_miter(src)
+    rst["hook"] = extract_cvstep(repo)
     return tab, ctl, rst
 
 
@@ -523,7 +560,8 @@ def generate(ctx=None):
     return {"source": SRC, "stages": len(tab["A"]), "b": [str(x) for x in tab["b"]], "d": [str(x) for x in tab["d"]],
             "c": [str(x) for x in tab["c"]], "control": {k: str(v) for k, v in ctl.items()},
             "restart_prog": [(l, [str(x) for x in cs], str(c)) for l, cs, c, _ in rst["prog"]],
-            "restart_call_arg": rst["call_arg"]}
+            "restart_call_arg": rst["call_arg"], "restart_stops_at": "++m_iter " + rst["miter"] + " bad_step_max",
+            "cvstep_hook": rst["hook"]}
 
 
 if __name__ == "__main__":
